@@ -6,6 +6,8 @@ mod fixtures;
 mod pw;
 #[allow(dead_code)]
 mod srv;
+#[allow(dead_code)]
+mod worlds;
 
 fn main() {
     let args: Vec<String> = std::env::args().collect();
@@ -13,6 +15,8 @@ fn main() {
         eprintln!("usage: kv-core <Cnn> [--tier quick|thorough] [--replay file]");
         std::process::exit(2);
     };
+    if id == "bench" { checks::bench(); return; }
+    if id == "bench2" { checks::bench2(); return; }
     let rest = &args[2..];
     checks::dispatch(&id, rest);
 }
